@@ -112,7 +112,7 @@ def obligations(tier, rng):
             out.append(ob('C16', 'ct', 'ct/%s/n=%s+%s' % (text(f), ns, e), f=f, ns=ns, ext=e, max_paths=60000, wall=1500))
     for f in [('since_t', X, Y, 0, 1), ('until_t', X, Y, 0, 1)]:
         if quick:
-            out.append(ob('C16', 'ct', 'ct/%s/n=[2, 1]+[1, 1]' % text(f), f=f, ns=[2, 1], ext=[1, 1], max_paths=60000, wall=1500))
+            out.append(ob('C16', 'ct', 'ct/%s/n=[2, 2]+[1, 0]' % text(f), f=f, ns=[2, 2], ext=[1, 0], max_paths=60000, wall=1500))
             continue        # 2+1 / 2+1 samples take ~5 min each: thorough tier
         out.append(ob('C16', 'ct', 'ct/%s/n=[2, 2]+[1, 1]' % text(f), f=f, ns=[2, 2], ext=[1, 1], max_paths=60000, wall=1500))
     for f in [('eventually_t', ('not', X), 0, 1), ('once', ('always_t', X, 0, 1)), ('always_t', ('eventually_t', X, 0, 1), 0, 1),
